@@ -1,8 +1,149 @@
 import DepsDev.Drive.Loop
+import DepsDev.Model.Resolve.Maven
 open DepsDev
+open DepsDev.Resolve.Maven
 
-/-- Stub: replaced by the property's builder. -/
-def handleC07 : List String → String
-  | _ => "bad-op"
+/-! Line-protocol driver for C07 (wire format: `harness/cmd/c07/codec.go`).
 
-def main : IO Unit := Drive.runDriver "C07" handleC07
+  resolve U=<universe> T=<tables> root=<name>@<version>
+      → `ok p=<passes> N=<root>;<nodes sorted> E=<edges sorted | ->` | `err incompatible|notfound|other`
+-/
+
+namespace C07Driver
+
+def hx (s : String) : Option Bytes :=
+  if s.isEmpty then none else Bytes.ofHex s
+
+def nat? (s : String) : Option Nat :=
+  match s.toNat? with
+  | some n => if toString n == s then some n else none
+  | none => none
+
+def parseAttrs : List String → Nat → Option (List (Nat × Bytes))
+  | [], _ => some []
+  | p :: ps, last =>
+    match p.splitOn "=" with
+    | [k, v] => do
+      let k ← nat? k
+      if k ≤ last || k ≥ 64 then none
+      let v ← hx v
+      let rest ← parseAttrs ps k
+      pure ((k, v) :: rest)
+    | _ => none
+
+def parseType : List String → Option DepType
+  | [] => none
+  | m :: ps => do
+    let m ← nat? m
+    if m > 31 then none
+    let attrs ← parseAttrs ps 0
+    pure { mask := m, attrs := attrs }
+
+def parseImport (s : String) : Option Import :=
+  match s.splitOn "~" with
+  | n :: r :: t => do
+    let n ← hx n
+    let r ← hx r
+    let t ← parseType t
+    pure { name := n, req := r, typ := t }
+  | _ => none
+
+def parseVersion (s : String) : Option Version :=
+  match s.splitOn ">" with
+  | [] => none
+  | v :: is => do
+    let unlisted := v.startsWith "^"
+    let v ← hx (if unlisted then (v.drop 1).toString else v)
+    let is ← is.mapM parseImport
+    pure { version := v, listed := !unlisted, imports := is }
+
+def parsePackage (s : String) : Option Package :=
+  match s.splitOn "|" with
+  | [] => none
+  | n :: vs => do
+    let n ← hx n
+    let vs ← vs.mapM parseVersion
+    pure { name := n, versions := vs }
+
+def parseReq (s : String) : Option ReqInfo :=
+  match s.splitOn "|" with
+  | r :: k :: sat => do
+    let r ← hx r
+    let k ← match k with
+      | "s" => some ReqKind.soft
+      | "h" => some ReqKind.hard
+      | "b" => some ReqKind.bad
+      | _ => none
+    let sat ← sat.mapM hx
+    pure { req := r, kind := k, sat := sat }
+  | _ => none
+
+def distinct [BEq α] : List α → Bool
+  | [] => true
+  | x :: xs => !xs.contains x && distinct xs
+
+def wellFormed (u : Universe) : Bool :=
+  distinct (u.pkgs.map (·.name))
+  && u.pkgs.all (fun p => distinct (p.versions.map (·.version)))
+  && distinct (u.reqs.map (·.req))
+  && u.pkgs.all (fun p => p.versions.all fun v => v.imports.all fun d => (u.reqs.map (·.req)).contains d.req)
+
+def parseLine : List String → Option (Universe × VK)
+  | ["resolve", us, ts, rs] => do
+    if !us.startsWith "U=" || !ts.startsWith "T=" || !rs.startsWith "root=" then none
+    let us := (us.drop 2).toString
+    let ts := (ts.drop 2).toString
+    let pkgs ← if us == "-" then some [] else (us.splitOn ";").mapM parsePackage
+    let reqs ← if ts == "-" then some [] else (ts.splitOn ";").mapM parseReq
+    let root ← match ((rs.drop 5).toString).splitOn "@" with
+      | [n, v] => do
+        let n ← hx n
+        let v ← hx v
+        pure ({ name := n, version := v } : VK)
+      | _ => none
+    let u : Universe := { pkgs := pkgs, reqs := reqs }
+    if !wellFormed u then none
+    pure (u, root)
+  | _ => none
+
+def sortStrings (l : List String) : List String :=
+  l.mergeSort (fun a b => decide (a ≤ b))
+
+def insertAttr (a : Nat × Bytes) : List (Nat × Bytes) → List (Nat × Bytes)
+  | [] => [a]
+  | b :: bs => if a.1 ≤ b.1 then a :: b :: bs else b :: insertAttr a bs
+
+def showType (t : DepType) : String :=
+  let attrs := t.attrs.foldr insertAttr []
+  toString t.mask ++ String.join (attrs.map fun (k, v) => s!",{k}={Bytes.toHex v}")
+
+def showVK (v : VK) : String := Bytes.toHex v.name ++ "@" ++ Bytes.toHex v.version
+
+def showNode (n : Node) : String :=
+  showVK n.vk ++ String.join ((sortStrings (n.errors.map showVK)).map ("!" ++ ·))
+
+def showGraph (g : Graph) : String :=
+  let key (i : Nat) : String := match g.nodes[i]? with
+    | some n => showVK n.vk
+    | none => "?"
+  let nodes := match g.nodes.map showNode with
+    | [] => []
+    | r :: rest => r :: sortStrings rest
+  let edges := sortStrings (g.edges.map fun e => s!"{key e.src}>{key e.dst}:{Bytes.toHex e.req}:{showType e.typ}")
+  let es := if edges.isEmpty then "-" else ";".intercalate edges
+  "N=" ++ ";".intercalate nodes ++ " E=" ++ es
+
+def handle (f : List String) : String :=
+  match parseLine f with
+  | none => "bad-op"
+  | some (u, root) =>
+    match Resolve u root u.fuel with
+    | .graph s passes => s!"ok p={passes} {showGraph s.g}"
+    | .err .incompatible => "err incompatible"
+    | .err .notfound => "err notfound"
+    | .err .other => "err other"
+    | .outOfFuel => "fuel"
+
+end C07Driver
+
+def main : IO Unit := Drive.runDriver "C07" C07Driver.handle
